@@ -13,7 +13,8 @@
       6 :: ...      shard states in the order asked for
       7 :: ...      (shard id, config change index) pairs, ascending
       [8]           panic in the service goroutine
-      [9]           the DB replica died *)
+      [9]           the DB replica died
+      [10; b]       server.getBootstrapped (the Drummer's own linearizable read of the bootstrapped flag), b = 0 / 1 *)
 From stdpp Require Import gmap list numbers sorting.
 From Drummer.Model Require Import DB DBRun Service.
 Local Open Scope N_scope.
@@ -41,7 +42,16 @@ Inductive sitem :=
 | SCall (c : call) (obs : list N)
 | SCmd (c : cmd) (obs : option N)           (* Drummer.tick / Drummer.updateRequests; None = the replica died *)
 | SCtx (obs : option (list N))              (* server.getSchedulerContext; None = died *)
+| SBoot (obs : list N)                      (* server.getBootstrapped: [10; b], [8] (unknown value), [9] (died) *)
 | SRestart (alive : bool).                  (* child stopped, new child on the same directory: did it come up? *)
+
+(* getBooleanKV(bootstrappedKey): no record / "" = false, "true" = true, anything else panics in the service goroutine *)
+Definition boot_answer (d : db) : list N :=
+  if d_failed d then [9]
+  else match lookup_kv d key_bootstrapped with
+       | None => [10; 0]
+       | Some r => if kv_val r =? val_true then [10; 1] else if kv_val r =? 0 then [10; 0] else [8]
+       end.
 
 Definition check_sitem (P : params) (s : rstate) (it : sitem) : rstate * bool :=
   match s with
@@ -55,6 +65,7 @@ Definition check_sitem (P : params) (s : rstate) (it : sitem) : rstate * bool :=
       | Some l => (s, negb (d_failed d) && tokens_eqb (dump_context d) l)
       | None => (s, d_failed d)
       end
+    | SBoot obs => (s, tokens_eqb (boot_answer d) obs)
     | SRestart alive => (s, bool_decide (alive = negb (d_failed d)))
     end
   end.
@@ -78,6 +89,7 @@ Fixpoint model_sanswers_from (P : params) (s : rstate) (its : list sitem) : list
       | SCall c _ => let '(s', r) := svc_call P d c in dump_resp r :: model_sanswers_from P s' its'
       | SCmd c _ => let '(s', v) := rstep P s c in (match v with Some x => [x] | None => [9] end) :: model_sanswers_from P s' its'
       | SCtx _ => (if d_failed d then [9] else dump_context d) :: model_sanswers_from P s its'
+      | SBoot _ => boot_answer d :: model_sanswers_from P s its'
       | SRestart _ => [b2n (negb (d_failed d))] :: model_sanswers_from P s its'
       end
     end
